@@ -9,7 +9,7 @@ from ..model.namespace import Universe
 from .base import Check, Outcome, InvalidScenario
 from . import wcommon as W
 
-DEFECTS = ["missing", "missver", "self", "cycle2", "cycle3", "cycle_expr", "case_short", "case_ns", "case_root", "dup", "case_twin", "case_twin", "self_twin", "rel_outer", "rel_outer"]
+DEFECTS = ["missing", "missver", "self", "cycle2", "cycle3", "cycle_expr", "case_short", "case_ns", "case_root", "dup", "case_twin", "case_twin", "self_twin", "self_twin", "rel_outer", "rel_outer", "dup_ext", "dup_ext"]
 
 
 def apply_defect(ws: dict, df: dict) -> tuple[dict, set[str]]:
@@ -75,6 +75,12 @@ def apply_defect(ws: dict, df: dict) -> tuple[dict, set[str]]:
         tgt = copy.deepcopy(uni.defs[df["to"]])
         rname = tgt["name"].split(".")[0]
         ws["roots"].append({"dir": "w/dx/" + rname, "name": rname, "defs": [tgt], "dup": True})
+        add_field(at, ["ref", tgt["name"], tgt["ver"][0], tgt["ver"][1]])
+    elif kind == "dup_ext":
+        # the referenced definition exists twice in ONE directory: Name.M.m.dsdl and the legacy Name.M.m.uavcan (or a file with
+        # a port-ID prefix), with different contents - two definitions with the same name and version; the second file is
+        # written by the caller (see execute)
+        tgt = uni.defs[df["to"]]
         add_field(at, ["ref", tgt["name"], tgt["ver"][0], tgt["ver"][1]])
     elif kind == "self_twin":
         # a self reference, while ANOTHER file with the same name and version (without the self reference) sits in a second
@@ -159,7 +165,9 @@ class C09(Check):
             ok = True
             if kind == "case_twin":
                 df["how"], df["spell"] = rng.randrange(2), rng.randrange(2)
-            if kind in ("missver", "case_short", "case_ns", "case_root", "dup", "case_twin"):
+            if kind == "dup_ext":
+                df["how"] = rng.randrange(4)
+            if kind in ("missver", "case_short", "case_ns", "case_root", "dup", "case_twin", "dup_ext"):
                 if others:
                     df["to"] = rng.choice(others)
                 else:
@@ -223,6 +231,18 @@ class C09(Check):
         if df:
             ws, bad = apply_defect(ws, df)
         scn2 = dict(scn, ws=ws)
+        if df and df["kind"] == "dup_ext":
+            u0 = Universe(ws)
+            tgt = u0.defs[df["to"]]
+            path = u0.file_of(df["to"])
+            d0, fn = path.rsplit("/", 1)
+            short = tgt["name"].split(".")[-1]
+            stem = "%s.%d.%d" % (short, tgt["ver"][0], tgt["ver"][1])
+            other_ext = "uavcan" if tgt.get("ext", "dsdl") == "dsdl" else "dsdl"
+            twin_name = [stem + "." + other_ext, stem + "." + other_ext, ("%d." % (tgt["port"] + 1 if tgt.get("port") is not None else 7001)) + stem + "." + tgt.get("ext", "dsdl"), stem + "." + other_ext][df.get("how", 0) % 4]
+            if twin_name == fn:
+                raise InvalidScenario("twin has the name of the original")
+            scn2["extra_files"] = list(scn.get("extra_files", [])) + [[d0 + "/" + twin_name, "uint64 other_body_of_the_twin\n@sealed\n"]]
         w = World(scn2)
         try:
             uni = w.uni
@@ -254,7 +274,7 @@ class C09(Check):
             # stand-alone reads (the reference for "equal to what reading that definition on its own yields")
             base_uni = Universe(scn["ws"])
             for k in base_uni.defs:
-                if poisoned([k]) or (df and df["kind"] in ("dup", "case_twin", "self_twin")):
+                if poisoned([k]) or (df and df["kind"] in ("dup", "case_twin", "self_twin", "dup_ext")):
                     continue
                 ri = base_uni.root_of[k]
                 op = {"op": "rf", "files": [{"p": base_uni.file_of(k)}], "roots": [{"p": base_uni.roots[ri]["dir"]}],
@@ -285,7 +305,7 @@ class C09(Check):
                     elif classify_exc(res["exc"]) != "IDE":
                         out.fail("C09.clean-failure", "read %d: %s defect reported as %s: %s" % (i, df["kind"], type(res["exc"]).__name__, str(res["exc"])[:300]), "%s:%s" % (df["kind"], type(res["exc"]).__name__))
                     continue
-                if df and df["kind"] in ("dup", "case_twin", "self_twin"):
+                if df and df["kind"] in ("dup", "case_twin", "self_twin", "dup_ext"):
                     continue  # reads that do not reference the duplicated / case-colliding name: unspecified
                 if not res["ok"]:
                     out.fail("C09.target", "read %d: valid graph rejected: %s: %s" % (i, type(res["exc"]).__name__, str(res["exc"])[:400]), "rejected:" + type(res["exc"]).__name__)
